@@ -1411,7 +1411,12 @@ def run(ctx, replay=None):
         "position), directories holding unrelated files (*.npy with look-alike names such as 00.npy / 1e1.npy / <nblocks>.npy, other "
         "files; present before or appearing after the write), long and short stacks alternating in one directory. distinct by (pairs, lock, "
         "compute, return_stored, load_stored, optimize, source kinds, regions present, refused). correspondence: write index of "
-        "every block actually written (identified by content) and direct load_store_chunk / fuse_slice calls vs the model"
+        "every block actually written (identified by content) and direct load_store_chunk / fuse_slice calls vs the model.  PLUS "
+        "(props_ext/c10_buildtime, owner C25) store graphs (single pair / two sources into regions of one target / return_stored lazy and "
+        "eager / to_delayed blocks / explicit full region) with the default lock or lock=True BUILT under dask.config scheduler = sync / "
+        "synchronous / single-threaded (or another configuration) and EXECUTED with 4-8 threads (kwargs / config / pool / default) by "
+        "dask.compute / .compute() / persist into a seek-then-write target (one shared cursor, read-modify-write write log): target "
+        "contents, write log and read-back vs a serial NumPy loop"
     )
     ctx.assumptions = [
         "NumPy slice assignment `out[index] = x` writes x[j] to the j-th position selected by index on every axis (per-axis product)",
@@ -1423,6 +1428,14 @@ def run(ctx, replay=None):
     ]
     if replay is not None:
         case = replay.get("case", replay)
+        if str(case.get("kind", "")).startswith("stn."):  # harness/props_ext/c25_storend.py
+            from harness.props_ext import c25_storend
+            return c25_storend.run(ctx, replay)
+        if case.get("kind") == "bt":  # harness/props_ext/c10_buildtime.py (store built under one scheduler config, run under another)
+            from harness.props_ext import c10_buildtime
+            for sig, detail in c10_buildtime.run_case(ctx, case) or []:
+                ctx.fail(sig, case, detail)
+            return
         prog = case.get("program")
         if case.get("kind") in ("npy_stack", "npy_history"):
             sig, det, _ = run_npy(prog)
@@ -1445,5 +1458,9 @@ def run(ctx, replay=None):
          lambda req, m: (req.split(" ")[0], req.split(" ")[1] in ("N", "_"), m[:6], req.count("|"))),
         ("to_npy_stack chunks", pairs_npy, None),
     ])
+    from harness.props_ext import c25_storend  # n-D store / several triples / npy stack (Props/C25StoreND.lean; stn.*)
+    c25_storend.run(ctx)
+    from harness.props_ext import c10_buildtime  # store graphs built under a serial dask.config scheduler and executed with threads
+    c10_buildtime.run(ctx, ctx.scale(6, 15), owner="C25")
     if ctx.disagreements or ctx.audit.get("broken"):
         targeted(ctx)
